@@ -136,36 +136,57 @@ impl<'a> CompiledPredicate<'a> {
     }
 
     pub fn evaluate(&self, row: &ExecutorRow<'a>) -> bool {
-        self.eval_expr(self.expr, row)
+        self.eval_truth(self.expr, row) == Some(true)
     }
 
-    fn eval_expr(&self, expr: &crate::sql::ast::Expr<'a>, row: &ExecutorRow<'a>) -> bool {
-        use crate::sql::ast::{BinaryOperator, Expr, Literal};
+    /// SQL three-valued truth value of a predicate: `Some(true)`, `Some(false)`, or `None`
+    /// for UNKNOWN. A row passes a filter only when the predicate is `Some(true)`.
+    fn eval_truth(
+        &self,
+        expr: &crate::sql::ast::Expr<'a>,
+        row: &ExecutorRow<'a>,
+    ) -> Option<bool> {
+        use crate::sql::ast::{BinaryOperator, Expr, Literal, UnaryOperator};
 
         match expr {
-            Expr::BinaryOp { left, op, right } => match op {
-                BinaryOperator::And => self.eval_expr(left, row) && self.eval_expr(right, row),
-                BinaryOperator::Or => self.eval_expr(left, row) || self.eval_expr(right, row),
-                BinaryOperator::Eq
-                | BinaryOperator::NotEq
-                | BinaryOperator::Lt
-                | BinaryOperator::LtEq
-                | BinaryOperator::Gt
-                | BinaryOperator::GtEq => {
-                    let left_val = self.eval_value(left, row);
-                    let right_val = self.eval_value(right, row);
-                    self.compare_values(&left_val, &right_val, op)
-                }
-                _ => true,
+            Expr::BinaryOp {
+                left,
+                op: BinaryOperator::And,
+                right,
+            } => match (self.eval_truth(left, row), self.eval_truth(right, row)) {
+                (Some(false), _) | (_, Some(false)) => Some(false),
+                (Some(true), Some(true)) => Some(true),
+                _ => None,
             },
-            Expr::Literal(Literal::Boolean(b)) => *b,
-            Expr::Like { .. } | Expr::Between { .. } | Expr::InList { .. } | Expr::IsNull { .. } => {
-                match self.eval_value(expr, row) {
-                    Some(Value::Int(n)) => n != 0,
-                    _ => false,
-                }
-            }
-            _ => true,
+            Expr::BinaryOp {
+                left,
+                op: BinaryOperator::Or,
+                right,
+            } => match (self.eval_truth(left, row), self.eval_truth(right, row)) {
+                (Some(true), _) | (_, Some(true)) => Some(true),
+                (Some(false), Some(false)) => Some(false),
+                _ => None,
+            },
+            Expr::UnaryOp {
+                op: UnaryOperator::Not,
+                expr,
+            } => self.eval_truth(expr, row).map(|b| !b),
+            Expr::Literal(Literal::Boolean(b)) => Some(*b),
+            // subquery predicates are evaluated by the semi/anti join operators the planner
+            // builds for them; a residual copy in a filter must not reject rows
+            Expr::Exists { .. } | Expr::InSubquery { .. } => Some(true),
+            _ => match self.eval_value(expr, row) {
+                Some(Value::Null) | None => None,
+                Some(v) => Some(self.value_to_bool(&v)),
+            },
+        }
+    }
+
+    fn truth_to_value(t: Option<bool>) -> Value<'a> {
+        match t {
+            Some(true) => Value::Int(1),
+            Some(false) => Value::Int(0),
+            None => Value::Null,
         }
     }
 
@@ -204,6 +225,14 @@ impl<'a> CompiledPredicate<'a> {
                     Value::Int(i64::from_str_radix(s.trim_start_matches("0b"), 2).ok()?)
                 }
             }),
+            Expr::BinaryOp {
+                op: crate::sql::ast::BinaryOperator::And | crate::sql::ast::BinaryOperator::Or,
+                ..
+            }
+            | Expr::UnaryOp {
+                op: crate::sql::ast::UnaryOperator::Not,
+                ..
+            } => Some(Self::truth_to_value(self.eval_truth(expr, row))),
             Expr::BinaryOp { left, op, right } => {
                 let left_val = self.eval_value(left, row)?;
                 let right_val = self.eval_value(right, row)?;
@@ -234,14 +263,24 @@ impl<'a> CompiledPredicate<'a> {
                 list,
             } => {
                 let target_val = self.eval_value(expr, row)?;
+                if target_val.is_null() {
+                    return Some(Value::Null);
+                }
                 let mut found = false;
+                let mut saw_null = false;
                 for list_item in list.iter() {
-                    if let Some(list_val) = self.eval_value(list_item, row) {
-                        if self.values_equal(&target_val, &list_val) {
-                            found = true;
-                            break;
+                    match self.eval_value(list_item, row) {
+                        Some(Value::Null) | None => saw_null = true,
+                        Some(list_val) => {
+                            if self.values_equal(&target_val, &list_val) {
+                                found = true;
+                                break;
+                            }
                         }
                     }
+                }
+                if !found && saw_null {
+                    return Some(Value::Null);
                 }
                 let result = if *negated { !found } else { found };
                 Some(Value::Int(if result { 1 } else { 0 }))
@@ -252,17 +291,26 @@ impl<'a> CompiledPredicate<'a> {
                 low,
                 high,
             } => {
-                let val = self.eval_value(expr, row)?;
-                let low_val = self.eval_value(low, row)?;
-                let high_val = self.eval_value(high, row)?;
-                let in_range = self
-                    .value_cmp(&val, &low_val)
-                    .is_some_and(|o| o != std::cmp::Ordering::Less)
-                    && self
-                        .value_cmp(&val, &high_val)
-                        .is_some_and(|o| o != std::cmp::Ordering::Greater);
-                let result = if *negated { !in_range } else { in_range };
-                Some(Value::Int(if result { 1 } else { 0 }))
+                let val = self.eval_value(expr, row).unwrap_or(Value::Null);
+                let low_val = self.eval_value(low, row).unwrap_or(Value::Null);
+                let high_val = self.eval_value(high, row).unwrap_or(Value::Null);
+                // x BETWEEN lo AND hi  ==  x >= lo AND x <= hi  under three-valued logic
+                let side = |bound: &Value<'a>, reject: std::cmp::Ordering| -> Option<bool> {
+                    if val.is_null() || bound.is_null() {
+                        None
+                    } else {
+                        Some(self.value_cmp(&val, bound).is_some_and(|o| o != reject))
+                    }
+                };
+                let in_range = match (
+                    side(&low_val, std::cmp::Ordering::Less),
+                    side(&high_val, std::cmp::Ordering::Greater),
+                ) {
+                    (Some(false), _) | (_, Some(false)) => Some(false),
+                    (Some(true), Some(true)) => Some(true),
+                    _ => None,
+                };
+                Some(Self::truth_to_value(in_range.map(|r| r != *negated)))
             }
             Expr::Like {
                 expr,
@@ -273,6 +321,9 @@ impl<'a> CompiledPredicate<'a> {
             } => {
                 let val = self.eval_value(expr, row)?;
                 let pat = self.eval_value(pattern, row)?;
+                if val.is_null() || pat.is_null() {
+                    return Some(Value::Null);
+                }
                 let matches = match (&val, &pat) {
                     (Value::Text(s), Value::Text(p)) => self.like_match(s, p, *case_insensitive),
                     _ => false,
@@ -382,6 +433,7 @@ impl<'a> CompiledPredicate<'a> {
             },
             UnaryOperator::Not => match val {
                 Value::Int(n) => Some(Value::Int(if *n == 0 { 1 } else { 0 })),
+                Value::Null => Some(Value::Null),
                 _ => None,
             },
             UnaryOperator::BitwiseNot => match val {
@@ -1155,18 +1207,29 @@ impl<'a> CompiledPredicate<'a> {
             | BinaryOperator::LtEq
             | BinaryOperator::Gt
             | BinaryOperator::GtEq => {
+                if left.is_null() || right.is_null() {
+                    return Some(Value::Null);
+                }
                 let result = self.compare_values(&Some(left.clone()), &Some(right.clone()), op);
                 Some(Value::Int(if result { 1 } else { 0 }))
             }
             BinaryOperator::And => {
-                let l = self.value_to_bool(left);
-                let r = self.value_to_bool(right);
-                Some(Value::Int(if l && r { 1 } else { 0 }))
+                let l = (!left.is_null()).then(|| self.value_to_bool(left));
+                let r = (!right.is_null()).then(|| self.value_to_bool(right));
+                Some(Self::truth_to_value(match (l, r) {
+                    (Some(false), _) | (_, Some(false)) => Some(false),
+                    (Some(true), Some(true)) => Some(true),
+                    _ => None,
+                }))
             }
             BinaryOperator::Or => {
-                let l = self.value_to_bool(left);
-                let r = self.value_to_bool(right);
-                Some(Value::Int(if l || r { 1 } else { 0 }))
+                let l = (!left.is_null()).then(|| self.value_to_bool(left));
+                let r = (!right.is_null()).then(|| self.value_to_bool(right));
+                Some(Self::truth_to_value(match (l, r) {
+                    (Some(true), _) | (_, Some(true)) => Some(true),
+                    (Some(false), Some(false)) => Some(false),
+                    _ => None,
+                }))
             }
         }
     }
@@ -1786,7 +1849,6 @@ impl<'a> CompiledPredicate<'a> {
         };
 
         let ordering = match (l, r) {
-            (Value::Null, Value::Null) => Some(Ordering::Equal),
             (Value::Null, _) | (_, Value::Null) => None,
             (Value::Int(a), Value::Int(b)) => Some(a.cmp(b)),
             (Value::Int(a), Value::Float(b)) => (*a as f64).partial_cmp(b),
